@@ -755,7 +755,7 @@ class Airplane:
 
             # Add the original segment's mirror (if there is no offset)
             if original_segment.has_mirror and original_joined_at_middle:
-                mirror_segment = self.wing_segments[original_segment_name.replace("right", "left")]
+                mirror_segment = self.wing_segments[original_segment_name[:-len("right")]+"left"] # (only the side suffix: the name itself may contain "right")
                 mirror_segment.wing_ID = i_curr_ll
                 self._segments_in_wings[i_curr_ll].append(mirror_segment)
 
@@ -829,7 +829,7 @@ class Airplane:
                 next_segment = None
                 norm_to_beat = 0.0
                 for segment in self._segments_in_wings[i]:
-                    if "_left" in segment.name:
+                    if segment.side == "left":
                         tip = segment.get_tip_loc()
                         norm = m.sqrt(tip[1]*tip[1]+tip[2]*tip[2])
                         if norm_to_beat < norm and segment not in sorted_segments:
@@ -848,7 +848,7 @@ class Airplane:
                 next_segment = None
                 norm_to_beat = np.inf
                 for segment in self._segments_in_wings[i]:
-                    if "_right" in segment.name:
+                    if segment.side == "right":
                         tip = segment.get_tip_loc()
                         norm = m.sqrt(tip[1]*tip[1]+tip[2]*tip[2])
                         if norm_to_beat > norm and segment not in sorted_segments:
